@@ -306,7 +306,8 @@ def check_arn(run: common.Run, shape: int, f: Dict[str, str], report) -> None:
         rid = f"{f['resource-type']}/{f['resource-id']}"
         arn, fields = f"{base}:{rid}", {**{k: f[k] for k in ("partition", "service", "region", "account-id")}, "resource-id": rid}
     else:
-        arn, fields = f"{base}:{f['resource-type']}:{f['resource-id']}", {k: f[k] for k in ("partition", "service", "region", "account-id", "resource-type", "resource-id")}
+        rid2 = f["resource-id"] + f.get("tail", "")  # a resource-id may itself contain colons (log-group:name:*)
+        arn, fields = f"{base}:{f['resource-type']}:{rid2}", {**{k: f[k] for k in ("partition", "service", "region", "account-id", "resource-type")}, "resource-id": rid2}
     run.nt(("arn", arn))
     A = ct.StringType(arn)
     for name, val in fields.items():
@@ -427,7 +428,8 @@ def campaign(run: common.Run) -> None:
                  {"m": msg, "a": act, "d": ymd, "s": st.sampled_from(["/", "-"]), "t": st.sampled_from(["custodian_status", "maid_status"]), "o": st.lists(tag, max_size=2)}, n(300, 5000), seed_salt=8)
     word = st.text(alphabet="abcxyz0123456789-_", min_size=0, max_size=8)
     fields = st.fixed_dictionaries({"partition": st.sampled_from(["aws", "aws-cn", "aws-us-gov"]), "service": word, "region": word, "account-id": st.text(alphabet="0123456789", max_size=12),
-                                    "resource-type": st.text(alphabet="abcxyz-", min_size=1, max_size=6), "resource-id": st.text(alphabet="abcxyz0123456789-_.", min_size=1, max_size=10)})
+                                    "resource-type": st.text(alphabet="abcxyz-", min_size=1, max_size=6), "resource-id": st.text(alphabet="abcxyz0123456789-_.", min_size=1, max_size=10),
+                                    "tail": st.sampled_from(["", "", ":*", ":sub:id", ":a", ":", "::x"])})
     common.drive(run, lambda s, f: check_arn(run, s, f, run.hyp_fail), {"s": st.integers(0, 2), "f": fields}, n(200, 4000), seed_salt=9)
     common.drive(run, lambda steps: check_context(run, steps, run.hyp_fail), {"steps": st.lists(st.sampled_from(["ok", "celerror", "hostraise", "nested-ok"]), min_size=1, max_size=6)}, n(150, 3000), seed_salt=10)
 
